@@ -47,7 +47,8 @@ func (c *Connect) Pack(w io.Writer) error {
 
 	bufw := getBuffer()
 	defer putBuffer(bufw)
-	bufw.Write([]byte{0x00, 0x04})
+	// "MQTT" has 4 bytes, the "MQIsdp" of MQTT 3.1 has 6
+	writeUint16(bufw, uint16(len(c.ProtocolName)))
 	bufw.Write(c.ProtocolName)
 	bufw.WriteByte(c.ProtocolLevel)
 	// write flag
